@@ -2443,7 +2443,10 @@ class CartesianBlock(Block):
         """
         if self.core is not None:
             indices = self.spatialLocator.getCompleteIndices()
-            if self.core.symmetry.isThroughCenterAssembly:
+            if (
+                self.core.symmetry.isThroughCenterAssembly
+                and not self.core.isFullCore
+            ):
                 if indices[0] == 0 and indices[1] == 0:
                     # central location
                     return 4.0
